@@ -32,6 +32,10 @@ func (c17) Gen(r *rand.Rand, tier string, run int) *core.Case {
 	c.Net.Abortive = []int{0, 50}[r.IntN(2)]
 	c.Net.EOFData = []int{0, 50}[r.IntN(2)]
 	c.Net.CloseErr = []int{0, 0, 100}[r.IntN(3)]
+	c.Params["peer_lazy"] = []int{0, 0, 3, 12, 1000}[r.IntN(5)] // 1000: the peer never reads
+	if c.Params["peer_lazy"] > 0 {
+		c.Net.Capacity = []int{16, 64}[r.IntN(2)]
+	}
 	actors := 2 + r.IntN(4)
 	shutdown := r.IntN(4) // 0: nobody shuts down inside the race (main closes at the end)
 	for a := 0; a < actors; a++ {
@@ -116,9 +120,20 @@ func (c17) Run(c *core.Case, env *core.Env) {
 	st.e = e
 	zzsim.SetNode("harness")
 	// the peer drains whatever the endpoint sends back (error replies)
+	lazy := c.P("peer_lazy", 0)
 	go func() {
 		buf := make([]byte, 512)
 		for {
+			// a peer that takes its time before reading: the endpoint's
+			// writes (error replies sent from dispatch) stay blocked meanwhile
+			if lazy >= 1000 {
+				// a stalled peer: it only notices the end of the connection
+				stalled := make(chan struct{})
+				<-stalled
+			}
+			for j := 0; j < lazy; j++ {
+				zzsim.Yield("h.lazy-peer")
+			}
 			if _, err := peer.Read(buf); err != nil {
 				return
 			}
@@ -184,7 +199,14 @@ func (c17) Run(c *core.Case, env *core.Env) {
 			}
 		}(a)
 	}
-	wg.Wait()
+	if lazy >= 1000 {
+		// with a stalled peer operations may be waiting for the endpoint (its
+		// dispatcher is blocked writing an error reply): only a Close ends
+		// that, so the final Close comes when nothing else can run
+		env.S.Quiesce()
+	} else {
+		wg.Wait()
+	}
 	// final shutdown: every handler registered before it must be closed
 	h := env.Invoke(99, "final-close", "")
 	st.mu.Lock()
@@ -195,6 +217,7 @@ func (c17) Run(c *core.Case, env *core.Env) {
 	st.mu.Unlock()
 	err := e.Close()
 	env.Return(h, "", err)
+	wg.Wait()
 }
 
 func c17make(env *core.Env, st *c17state, a, kind, lazy int) *c17h {
